@@ -54,6 +54,28 @@ CLAIMED = {
          "Tables with dictionary-eligible, all-NULL and wide string columns over several row groups: every answer under any sidecar configuration equals the QE_IPC_CACHE=0 answer and every built sidecar equals the Parquet row groups cell for cell; in races (1-8 builder and 1-4 looping reader processes released together) every Ok answer equals the reference and the sidecar directory is complete afterwards. Exploration by repeated-race sampling: the harness does not own the OS schedule between processes (weakest level in this suite; stated in DESIGN 6).",
          "Reader/builder errors during a race are recorded as labels, only differing answers and incomplete sidecars are violations.", "5 C20"),
 
+ "C02": ("proptest: boolean / scalar expression trees over a table that is the full cross product of tiny nullable domains, each tree observed in six placements (WHERE, projection, HAVING, WHERE above LEFT JOIN, INNER ON, LEFT ON); oracle = refsql plus an independent per-row 3VL evaluator",
+         "Trees of depth <=4 over comparisons, IS NULL, IN-lists with NULL elements, BETWEEN, LIKE, AND/OR/NOT, IS DISTINCT FROM, boolean columns and literal-only subtrees (constant folding), a third inside the compiled-predicate subset: kept rows = rows where the predicate is TRUE, projected value exactly TRUE/FALSE/NULL, CASE/COALESCE/NULLIF/arithmetic NULL exactly where SQL says. Exploration; non-trivial = a NULL sub-result on which null-strict evaluation would decide differently.",
+         "Two independent oracles (refsql and the module's evaluator) are compared on every case.", "5 C02"),
+ "C23": ("proptest with a focused subquery generator; two oracles: refsql, and production optimizer vs the rule list without SubqueryDecorrelation/FlattenDependentJoin (row-by-row executor)",
+         "[NOT] EXISTS / [NOT] IN / scalar aggregate subqueries in WHERE and SELECT list, correlated on 0-2 (in)equalities in either orientation, under AND/OR/NOT, over joins or derived tables, nesting depth 2, NULLs and empties on both sides: engine answer must equal refsql and the decorrelated plan must equal row-by-row execution. Exploration; the coarse 'correlated-subquery' class is replaced here by ten root-cause signatures.",
+         "Scalar subqueries are aggregates only (provably single-row non-aggregates are not generated).", "5 C23"),
+ "C24": ("proptest with a focused set-operation generator (row pools with controlled multiplicities on both sides, arbitrary operator trees, flat chains for precedence); oracle = refsql multiset algebra",
+         "2-5 SELECT leaves over tables sharing 1-3 column types, rows drawn with repetition from a small pool (identical and NULL-containing rows on both sides), combined by UNION/INTERSECT/EXCEPT x DISTINCT/ALL in arbitrary trees and unparenthesised chains (standard precedence): result multiset must equal the reference. Exploration.",
+         "45 % of cases are NULL-free so the search continues behind the open NULL-row finding.", "5 C24"),
+ "C26": ("proptest with a focused window-function generator (all 16 functions, ROWS frames with every bound combination, RANGE frames with UNBOUNDED/CURRENT/numeric offsets, unique tiebreaks where SQL's answer depends on peer order); oracle = refsql's O(n^2) window evaluator, validated against SQLite on 18,000 statements",
+         "Partitions by 0-2 columns, orders by 0-3 keys with ties and NULLs, several windows per SELECT, windows inside expressions: every row's value must equal the SQL definition. Exploration.",
+         "Named windows (WINDOW w AS ...) are not generated.", "5 C26"),
+ "C27": ("proptest with a focused GROUPING SETS / ROLLUP / CUBE generator; oracle = refsql's expansion, self-checked on every case against the UNION ALL of plain GROUP BYs",
+         "GROUPING SETS lists incl. the empty and repeated sets, ROLLUP and CUBE over 1-3 columns in any order with NULLs in the grouping columns, 1-3 aggregates, GROUPING() with 1-3 arguments in any order: the union of one aggregate per set, absent columns NULL, standard bitmask. Exploration.",
+         "Quick tier is 500 cases (each grouping set is a separate aggregate pipeline in the engine).", "5 C27"),
+ "C28": ("proptest with a focused CTE generator (name reuse in nested scopes, multiple references, references inside subqueries, CTE named like a base table); two oracles: refsql lexical scoping, and metamorphic textual inlining of every reference (engine vs engine)",
+         "1-3 CTEs referenced 1-3 times (joins, self-joins, unions, t.*), nested WITH clauses reusing an outer name with another column set, references inside EXISTS/IN/scalar subqueries: each reference must yield the nearest enclosing definition's rows, and the statement must equal its WITH-free inlining. Exploration.",
+         "refsql's scoping agreed with SQLite on ~3,500 generated statements (the rest are rejected by SQLite for dialect reasons).", "5 C28"),
+ "C44": ("proptest with a focused VALUES generator (direct, derived with and without column aliases, CTE, UNION ALL, filtered, joined, aggregated); oracle = refsql, cross-checked against SQLite on 3,000 statements",
+         "VALUES lists of 1-8 rows x 1-5 columns (integer, double, mixed, string with quotes / 'NULL' / non-ASCII, boolean, all-NULL; NULL in the first row) must produce exactly their rows in every use. Exploration.",
+         "Column names are always defined by the statement itself.", "5 C44"),
+
  "C29": ("generated / damaged / hostile / harvested SQL executed in crash-isolating worker sub-processes with a panic hook and a two-stage watchdog",
          "Every statement (grammar-generated, token-damaged, deeply nested or oversized, and all 800 SQL strings harvested from the repository plus TPC-H Q1-22, plain and damaged) runs in a long-lived worker process against generated tables plus TPC-H SF 0.001; the oracle is: an Ok or Err reply - never a panic (reported with message and location), never a dead worker (signal), never silence (10 s, then 90 s alone in a fresh process). Exploration; the whole harvested corpus is replayed exhaustively on every run.",
          "Hangs are judged by wall clock only after a 90 s solo confirmation on tiny tables; panics that only exist in overflow-checked builds are still panics of the build the repository tests.", "5 C29"),
